@@ -127,7 +127,7 @@ theorem epollUpdate_eq {σ} (cfg : Cfg) (env : IdleEnv) (hok : EnvOk cfg env) (c
 theorem handleIdle_eq {σ} (cfg : Cfg) (app : App σ) (env : IdleEnv) (hok : EnvOk cfg env) (c : Conn σ) (p : PSt)
     (h : Rel c p) (hs : c.started = true) (hc : c.cleaned = false)
     (c' : Conn σ) (l : List LEv) (heq : handleIdle cfg app env c = (c', l)) : Post p c' l := by
-  unfold handleIdle at heq
+  unfold handleIdle handleIdleWith at heq
   generalize hce : idleLoop cfg app env _ _ = rr at heq
   obtain ⟨c1, l1, f1⟩ := rr
   obtain ⟨t1, t2, t3⟩ := idleLoop_eq cfg app env hok _ _ p (h.congr (c2 := { c with touched := false }) rfl rfl rfl rfl rfl rfl rfl rfl rfl rfl)
